@@ -2,8 +2,9 @@
 """keep_seed.py <Cxx> <k> : copy a confirmed seeded change from /tmp/seed_<Cxx>_out/<k> to /verif/seeded/<Cxx>-<k>/ with meta.json"""
 import json, os, shutil, sys, re
 pid, k = sys.argv[1], sys.argv[2]
+dk = sys.argv[3] if len(sys.argv) > 3 else k
 src = f"/tmp/seed_{pid}_out/{k}"
-dst = f"/verif/seeded/{pid}-{k}"
+dst = f"/verif/seeded/{pid}-{dk}"
 os.makedirs(dst, exist_ok=True)
 for f in ("patch.diff", "demo.py", "README.md"):
     shutil.copy(os.path.join(src, f), os.path.join(dst, f))
@@ -12,7 +13,7 @@ readme = open(os.path.join(src, "README.md")).read()
 m = re.findall(r"exit=(\d+)", ver)
 meta = {
     "property": pid,
-    "seed": f"{pid}-{k}",
+    "seed": f"{pid}-{dk}",
     "origin": "independent sub-agent given only the property text and a scratch worktree",
     "needs_to_manifest": readme.strip().split("\n\n")[1][:900] if "\n\n" in readme else readme[:900],
     "confirmed_by_me": {
